@@ -210,7 +210,10 @@ PROBES = ["[[a ~ b] ~ c]", "[[a~b]~c] + d", "[[a ~ b] + [c ~ d] ~ e]", "[a ~ [b 
           "[a ~ b", "a ~ b]", "a | | b", "a ^ b ^ c", "a %in% ", "`", "``", "'", "a'b", "{a", "a}", "{", "}", "a ~ b ~ c", "0 ~ 0", "1 | 1 ~ 1", "a:", ":a", "a::b", "a + (", "a())", "f(", "f(a))", "I(", ".",
           ". ~ .", "a ~ . | .", "-", "--1", "a - - a", "+", "a +", "()", "(())", "a()", "1()", "(a)(b)", "a b", "1 2", "a 1", "`a` `b`", "a\\", "\\",
           "{(a + b).abs()} ~ a", "f(a)[0](b) ~ a", "{a[0].z} ~ b", "a ~ {(a + b).abs()}", "{(a).b} ~ .", "{f(a)(b)} + .", "{[a][0].real} ~ b", "{a if b else c} ~ a",
-          "{(lambda q: q)(a)} ~ b", "{-a.b} ~ c", "{a.b.c()} ~ d", "{a[b](c).d} | e ~ f"]
+          "{(lambda q: q)(a)} ~ b", "{-a.b} ~ c", "{a.b.c()} ~ d", "{a[b](c).d} | e ~ f",
+          "a ** {{[]}}", "a ** {{[]: 1}}", "a ^ {{{}}}", "a ** 99999999999999999999", "a ^ 9223372036854775808", "a ** 1e3", "a ** 2.0", "a ** -1",
+          "f(\ud800)", "{\ud800}", "f('\udfff')", "{" + "+".join(f"x{i}" for i in range(600)) + "}", "f(" + "-" * 3000 + "a)", "a" + "[0]" * 3000,
+          'f("a\\\\", `b c`, "d")', "f('C:\\\\', `my col`, 'x')", "pick(`it's`, 'q')", 'pick(`5" pipe`, "q")']
 
 
 def probe_leg(ctx: Ctx):
